@@ -5,6 +5,7 @@ CONSTANTS
   Conts <- cConts
   MaxList = 3
   MaxNodes = 6
+  PairNodes = 0
   DoEmit = TRUE
 INVARIANTS ThmOnePerScalar ThmResolves ThmNoAttr Emit
 CHECK_DEADLOCK FALSE
